@@ -430,12 +430,28 @@ pub fn run(tier: Tier) -> i32 {
     let depths: std::collections::HashMap<String, (usize, usize)> = built.iter().map(|(s, d)| (s.name.clone(), *d)).collect();
     let systems: Vec<_> = built.into_iter().map(|(s, _)| s).collect();
     explore_all(&mut rep, &systems, |s| tier.pick(depths[&s.name].0, depths[&s.name].1), tier.pick(10.0, 300.0));
+    let sweep = sweep_systems();
+    explore_more(&mut rep, "sweep", &sweep, tier.pick(3, 4), tier.pick(3.0, 60.0));
     rep.assume("continuations are timed discrete-event runs: timers fire exactly at now + the duration they were armed with; a transmit timestamp is reported right after every event send (as statime-linux does); BMCA runs every announce interval; every requested timer duration is compared with the configured intervals (announce/sync exact, receipt within [1,2] x timeout x announce interval, delay within [0,2] x the delay interval)");
     rep.assume("bounds: master within 2 x announce_receipt_timeout + 5 intervals of silence; slave within 5.5 intervals of a steady better master; delay request gaps <= 2 x the configured interval");
     rep.finish()
 }
 
+/// the configuration sweep under an obedient host, continued under silence and under a better master
+fn sweep_systems() -> Vec<WorldSys<'static, LiveMon>> {
+    let mut all = vec![];
+    for (mon, tag) in [(&SILENCE, "silence"), (&BETTER, "better-master")] {
+        for (mut s, _) in build("C12", mon, crate::c08::sweep_defs(true), false) {
+            s.obedient = true;
+            s.name = format!("{}+{}", s.name, tag);
+            all.push(s);
+        }
+    }
+    all
+}
+
 pub fn replay(r: &serde_json::Value) {
-    let systems: Vec<_> = systems().into_iter().map(|(s, _)| s).collect();
+    let mut systems: Vec<_> = systems().into_iter().map(|(s, _)| s).collect();
+    systems.extend(sweep_systems());
     replay_world(&systems, r);
 }
